@@ -91,6 +91,11 @@ def judge(uni, recorder, cfg, res, created_dirs):
         i = node_by_path.get(path)
         if i is not None and g.attached(i) and M.ROLE[g.file_state(i)] == "STATIC":
             continue
+        if i is not None and not g.attached(i) and _held_by_attached(g, i):
+            # kept as (indirect) input of something an active step still consumes: the
+            # documented fixed point of delete_detached ("held directly or indirectly")
+            res.stats["probe.orphan_kept_indirectly"] += 1
+            continue
         res.violate(
             "R-orphan/file", "orphan-file",
             f"{path} was recorded as {rec['role']} of a step that is no longer active/needed, "
